@@ -74,13 +74,15 @@ Inductive prog :=
 | Put (k : key) (v : val) (c : prog)                      (* Insert *)
 | Del (k : key) (c : prog).                               (* Remove *)
 
-(* the scope of a view: a declaration (Keys.Has) or the recorder (SimulatedKeys.Has: always true, records valid keys) *)
+(* the scope of a view: a declaration (Keys.Has) or the recorder (SimulatedKeys.Has = Keys.Add: records a valid key
+   and answers true, refuses a key shorter than two bytes — since /repo 1b6be2f; before that fix it answered true
+   without recording the key, so a simulation could succeed where every transaction fails) *)
 Inductive mode := MScope (sc : key -> perm) | MRecord.
 
 Definition check (m : mode) (rec : checks) (k : key) (p : perm) : option checks :=
   match m with
   | MScope sc => if has (sc k) p then Some rec else None       (* ErrInvalidKeyOrPermission *)
-  | MRecord => Some (if valid_key k then (k, p) :: rec else rec)
+  | MRecord => if valid_key k then Some ((k, p) :: rec) else None   (* Keys.Add refuses: ErrInvalidKeyOrPermission *)
   end.
 
 (* one action on a view: Some (output, pending changes, recorded checks) or None (the action failed) *)
@@ -164,28 +166,6 @@ Definition tx_run (extra : checks) (base : key -> option val) (pend0 : diff) (ac
   : list bytes * bool :=
   let all := tx_scope extra (map fst acts) in
   if decl_valid all then run_tx (perm_of all) base pend0 (map snd acts) else ([], false).
-
-(* every key an action touches when it runs on a view that refuses nothing is a valid key (>= 2 bytes).
-   Keys.Add cannot hold an invalid key, so no declaration can ever permit an access to one. *)
-Fixpoint touch_valid (base : key -> option val) (p : prog) (pend : diff) : bool :=
-  match p with
-  | Ret _ => true
-  | Fail => true
-  | Get k c => valid_key k && touch_valid base (c (vis base pend k)) pend
-  | Put k v c => valid_key k && (if verify_value k v then touch_valid base c ((k, Some v) :: pend) else true)
-  | Del k c => valid_key k && touch_valid base c ((k, None) :: pend)
-  end.
-
-Fixpoint sim_touch_valid (base : key -> option val) (pend : diff) (ps : list prog) : bool :=
-  match ps with
-  | [] => true
-  | p :: rest =>
-      touch_valid base p pend &&
-      match run MRecord base p pend [] with
-      | None => true
-      | Some (_, pend', _) => sim_touch_valid base pend' rest
-      end
-  end.
 
 (* ---- first-order scripts (what the driver's test action executes), compiled to programs *)
 Inductive sop :=
